@@ -1,0 +1,215 @@
+//go:build verif
+
+package rcmgr
+
+import (
+	"net/netip"
+
+	"github.com/libp2p/go-libp2p/core/network"
+	"github.com/libp2p/go-libp2p/core/peer"
+	"github.com/libp2p/go-libp2p/core/protocol"
+)
+
+// Read-only accessors for external runtime monitors. Compiled only with the `verif` build tag.
+
+// VerifLimit is a flat copy of a scope's Limit, read through the Limit interface.
+type VerifLimit struct {
+	Memory                         int64
+	StreamsIn, StreamsOut, Streams int
+	ConnsIn, ConnsOut, Conns, FD   int
+}
+
+// VerifScope is a snapshot of one resource scope taken under the scope's own lock.
+type VerifScope struct {
+	Name   string
+	Stat   network.ScopeStat
+	Limit  VerifLimit
+	RefCnt int
+	Done   bool
+}
+
+// VerifPrefixCount is one entry of the connLimiter: a network prefix (or a subnet of a per-subnet
+// limit), its cap and the number of connections currently counted against it.
+type VerifPrefixCount struct {
+	Prefix netip.Prefix
+	Cap    int
+	Count  int
+}
+
+// VerifState is a snapshot of every scope the manager knows and of the connLimiter's counters.
+// Scopes are read one after another (there is no global lock), so it is only a consistent cut when
+// the manager is quiescent.
+type VerifState struct {
+	System, Transient, AllowlistedSystem, AllowlistedTransient VerifScope
+
+	Services      map[string]VerifScope
+	ServicePeers  map[string]map[peer.ID]VerifScope
+	Protocols     map[protocol.ID]VerifScope
+	ProtocolPeers map[protocol.ID]map[peer.ID]VerifScope
+	Peers         map[peer.ID]VerifScope
+
+	// connLimiter: explicit network prefixes (most specific first) and per-subnet limits
+	NetworkPrefixV4, NetworkPrefixV6 []VerifPrefixCount
+	SubnetV4, SubnetV6               []VerifPrefixCount // one entry per (limit, subnet with a counter)
+}
+
+func verifLimit(l Limit) VerifLimit {
+	return VerifLimit{
+		Memory:     l.GetMemoryLimit(),
+		StreamsIn:  l.GetStreamLimit(network.DirInbound),
+		StreamsOut: l.GetStreamLimit(network.DirOutbound),
+		Streams:    l.GetStreamTotalLimit(),
+		ConnsIn:    l.GetConnLimit(network.DirInbound),
+		ConnsOut:   l.GetConnLimit(network.DirOutbound),
+		Conns:      l.GetConnTotalLimit(),
+		FD:         l.GetFDLimit(),
+	}
+}
+
+func verifScope(s *resourceScope) VerifScope {
+	s.Lock()
+	defer s.Unlock()
+	return VerifScope{Name: s.name, Stat: s.rc.stat(), Limit: verifLimit(s.rc.limit), RefCnt: s.refCnt, Done: s.done}
+}
+
+// VerifDump returns a snapshot of all scopes and the connLimiter; ok is false when m is not this
+// package's resource manager.
+func VerifDump(m network.ResourceManager) (st *VerifState, ok bool) {
+	r, ok := m.(*resourceManager)
+	if !ok {
+		return nil, false
+	}
+	st = &VerifState{
+		Services:      map[string]VerifScope{},
+		ServicePeers:  map[string]map[peer.ID]VerifScope{},
+		Protocols:     map[protocol.ID]VerifScope{},
+		ProtocolPeers: map[protocol.ID]map[peer.ID]VerifScope{},
+		Peers:         map[peer.ID]VerifScope{},
+	}
+
+	r.mx.Lock()
+	svcs := make([]*serviceScope, 0, len(r.svc))
+	for _, s := range r.svc {
+		svcs = append(svcs, s)
+	}
+	protos := make([]*protocolScope, 0, len(r.proto))
+	for _, s := range r.proto {
+		protos = append(protos, s)
+	}
+	peers := make([]*peerScope, 0, len(r.peer))
+	for _, s := range r.peer {
+		peers = append(peers, s)
+	}
+	r.mx.Unlock()
+
+	for _, s := range peers {
+		st.Peers[s.peer] = verifScope(s.resourceScope)
+	}
+	for _, s := range protos {
+		s.Lock()
+		sub := make(map[peer.ID]*resourceScope, len(s.peers))
+		for p, ps := range s.peers {
+			sub[p] = ps
+		}
+		s.Unlock()
+		m := make(map[peer.ID]VerifScope, len(sub))
+		for p, ps := range sub {
+			m[p] = verifScope(ps)
+		}
+		st.ProtocolPeers[s.proto] = m
+		st.Protocols[s.proto] = verifScope(s.resourceScope)
+	}
+	for _, s := range svcs {
+		s.Lock()
+		sub := make(map[peer.ID]*resourceScope, len(s.peers))
+		for p, ps := range s.peers {
+			sub[p] = ps
+		}
+		s.Unlock()
+		m := make(map[peer.ID]VerifScope, len(sub))
+		for p, ps := range sub {
+			m[p] = verifScope(ps)
+		}
+		st.ServicePeers[s.service] = m
+		st.Services[s.service] = verifScope(s.resourceScope)
+	}
+	st.AllowlistedTransient = verifScope(r.allowlistedTransient.resourceScope)
+	st.AllowlistedSystem = verifScope(r.allowlistedSystem.resourceScope)
+	st.Transient = verifScope(r.transient.resourceScope)
+	st.System = verifScope(r.system.resourceScope)
+
+	cl := r.connLimiter
+	cl.mu.Lock()
+	defer cl.mu.Unlock()
+	np := func(limits []NetworkPrefixLimit, counts []int) []VerifPrefixCount {
+		out := make([]VerifPrefixCount, 0, len(limits))
+		for i, l := range limits {
+			c := 0
+			if i < len(counts) {
+				c = counts[i]
+			}
+			out = append(out, VerifPrefixCount{Prefix: l.Network, Cap: l.ConnCount, Count: c})
+		}
+		return out
+	}
+	sn := func(limits []ConnLimitPerSubnet, counts []map[netip.Prefix]int) []VerifPrefixCount {
+		var out []VerifPrefixCount
+		for i, l := range limits {
+			if i >= len(counts) {
+				break
+			}
+			for p, c := range counts[i] {
+				out = append(out, VerifPrefixCount{Prefix: p, Cap: l.ConnCount, Count: c})
+			}
+		}
+		return out
+	}
+	st.NetworkPrefixV4 = np(cl.networkPrefixLimitV4, cl.connsPerNetworkPrefixV4)
+	st.NetworkPrefixV6 = np(cl.networkPrefixLimitV6, cl.connsPerNetworkPrefixV6)
+	st.SubnetV4 = sn(cl.connLimitPerSubnetV4, cl.ip4connsPerLimit)
+	st.SubnetV6 = sn(cl.connLimitPerSubnetV6, cl.ip6connsPerLimit)
+	return st, true
+}
+
+// VerifConnAllowlisted reports whether a connection scope is currently accounted in the allowlisted
+// scope set; ok is false when s is not this package's connection scope.
+func VerifConnAllowlisted(s network.ConnManagementScope) (allowlisted, ok bool) {
+	c, ok := s.(*connectionScope)
+	if !ok {
+		return false, false
+	}
+	c.Lock()
+	defer c.Unlock()
+	return c.isAllowlisted, true
+}
+
+// VerifGC is an alias for the manager's periodic scope collection (normally driven by the one-minute
+// ticker), so that a monitor can run it concurrently with a workload outside virtual time.
+func VerifGC(m network.ResourceManager) {
+	if r, ok := m.(*resourceManager); ok {
+		r.gc()
+	}
+}
+
+// VerifEdges returns the names of the scopes a connection, stream or plain scope is currently
+// charged to besides itself (its linearised parent set); ok is false for foreign types.
+func VerifEdges(s any) (names []string, ok bool) {
+	var rs *resourceScope
+	switch x := s.(type) {
+	case *connectionScope:
+		rs = x.resourceScope
+	case *streamScope:
+		rs = x.resourceScope
+	case *resourceScope:
+		rs = x
+	default:
+		return nil, false
+	}
+	rs.Lock()
+	defer rs.Unlock()
+	names = make([]string, 0, len(rs.edges))
+	for _, e := range rs.edges {
+		names = append(names, e.name)
+	}
+	return names, true
+}
